@@ -273,14 +273,6 @@ impl St {
         Ok(id)
     }
 
-    pub(crate) fn drop_held_id(&mut self, id: u32) {
-        if let Some(p) = self.held.iter().position(|h| h.raw_id() == id) {
-            let t = self.held.swap_remove(p);
-            self.dead_ids.push(id);
-            drop(t);
-        }
-    }
-
     // ------------------------------------------------------------------ observation (2.6)
     pub fn observe_buf(b: &dyn Deq<Tracked>, n: usize) -> R<Vec<Obs>> {
         let len = b.len();
